@@ -27,9 +27,14 @@ Variable cfg : config.
 Variable translate : bytes -> seginfo -> list cand.
 
 (** ---- after Clear the session does not compose ---- *)
+Lemma ac_on_update_composing c : is_composing (ac_on_update c) = is_composing c.
+Proof. unfold ac_on_update. destruct (cx_conn c && negb (is_composing c)); reflexivity. Qed.
+Lemma ac_on_update_commit_text c : ctx_commit_text (ac_on_update c) = ctx_commit_text c \/ is_composing c = false.
+Proof. unfold ac_on_update. destruct (is_composing c); [left|right; reflexivity]. rewrite andb_false_r. reflexivity. Qed.
+
 Lemma clear_not_composing c : is_composing (clear cfg translate c) = false.
 Proof.
-  unfold clear, compose. cbn [cx_caret cx_input cx_comp firstn length Nat.ltb Nat.leb andb].
+  unfold clear, compose. rewrite ac_on_update_composing. unfold compose_core. cbn [cx_caret cx_input cx_comp firstn length Nat.ltb Nat.leb andb].
   unfold reset_input at 1. cbn [sg_with_segs sg_segs dispose Nat.ltb Nat.leb sg_input].
   cbn [calc_segmentation calc_loop has_finished cur_end sg_segs sg_input length Nat.leb fst snd].
   unfold translate_segs. cbn [sg_segs sg_input translate_list sg_with_segs].
@@ -111,7 +116,7 @@ Lemma on_select_confirmed s1 g1 r :
   let s' := if get_option (st_ctx s1) opt_auto_commit
             then fst (commit cfg translate (st_with_ctx s1 c2))
             else st_with_ctx s1 (ctx_with_comp c2 (fst (forward (cx_comp c2)))) in
-  on_select cfg translate s1 = mkSt (st_ctx s') (st_nav_input s') [] (st_commit s') (st_odd s') (st_kb_last s').
+  on_select cfg translate s1 = mkSt (st_ctx s') (st_nav_input s') [] (st_commit s') (st_odd s') (st_kb_last s') (st_ac s') (st_clock s').
 Proof.
   intros Hsegs Hend. cbv zeta. unfold on_select. rewrite Hsegs, Hend, Nat.eqb_refl.
   unfold sg_set_back. rewrite Hsegs. reflexivity.
@@ -238,7 +243,7 @@ Qed.
 Lemma on_select_appends s : appends s (on_select cfg translate s).
 Proof.
   unfold on_select.
-  match goal with |- appends s (mkSt (st_ctx ?x) _ _ (st_commit ?x) _ _) => assert (H : appends s x) end.
+  match goal with |- appends s (mkSt (st_ctx ?x) _ _ (st_commit ?x) _ _ _ _) => assert (H : appends s x) end.
   { destruct (sg_segs (cx_comp (st_ctx s))) as [|g0 r]; [apply with_ctx_appends|].
     destruct (s_end (seg_close g0) =? length (cx_input (st_ctx s))).
     - match goal with |- context [if ?b then _ else _] => destruct b end;
@@ -476,6 +481,64 @@ Proof.
   - apply pair_punct_appends.
 Qed.
 
+(** ---- ascii_composer only appends (CommitText, commit_code, commit_text styles) ---- *)
+Lemma with_ac_appends s a : appends s (st_with_ac s a).
+Proof. apply appends_eq. reflexivity. Qed.
+Lemma commit_text_appends s t : appends s (commit_text s t).
+Proof. unfold commit_text. eapply appends_trans; [apply with_ctx_appends | apply sink_appends]. Qed.
+Lemma ac_switch_appends s m st : appends s (ac_switch cfg translate s m st).
+Proof.
+  unfold ac_switch. eapply appends_trans; [|apply on_ctx_appends].
+  destruct (is_composing (st_ctx s)); [|apply appends_refl].
+  destruct st.
+  - destruct m; [eapply appends_trans; apply on_ctx_appends | apply on_ctx_appends].
+  - eapply appends_trans; [apply on_ctx_appends | apply confirm_appends].
+  - eapply appends_trans; [eapply appends_trans; apply on_ctx_appends | apply commit_appends].
+  - eapply appends_trans; apply on_ctx_appends.
+  - apply on_ctx_appends.
+Qed.
+Lemma ac_toggle_appends s code : appends s (ac_toggle_with_key cfg translate s code).
+Proof.
+  unfold ac_toggle_with_key. destruct (ac_find (cf_ascii_keys cfg) code); [|apply appends_refl].
+  unfold ac_with_caps. eapply appends_trans; [apply ac_switch_appends | apply with_ac_appends].
+Qed.
+Lemma ac_caps_lock_appends s k : appends s (fst (ac_process_caps_lock cfg translate s k)).
+Proof.
+  unfold ac_process_caps_lock. destruct (k_code k =? XK_Caps_Lock)%Z.
+  - destruct (negb (k_release k)); [|apply appends_refl].
+    match goal with |- appends s (fst (if ?b then _ else _)) => destruct b end; cbn [fst]; [apply with_ac_appends|].
+    eapply appends_trans; [|apply ac_switch_appends]. unfold ac_with_caps, ac_unpress.
+    eapply appends_trans; apply with_ac_appends.
+  - destruct (k_caps k); [|apply appends_refl].
+    match goal with |- appends s (fst (if ?b then _ else _)) => destruct b end; cbn [fst]; [apply commit_text_appends | apply appends_refl].
+Qed.
+Lemma ascii_composer_appends s k : appends s (fst (ascii_composer_process cfg translate s k)).
+Proof.
+  unfold ascii_composer_process.
+  destruct ((k_shift k && k_ctrl k) || k_alt k || k_super k); [apply with_ac_appends|].
+  assert (H1 : appends s (fst (if ac_style_is_noop (ac_caps_style cfg) then (s, PNoop) else ac_process_caps_lock cfg translate s k))).
+  { destruct (ac_style_is_noop (ac_caps_style cfg)); [apply appends_refl | apply ac_caps_lock_appends]. }
+  destruct (if ac_style_is_noop (ac_caps_style cfg) then (s, PNoop) else ac_process_caps_lock cfg translate s k) as [s1 r].
+  cbn [fst] in H1. destruct (negb (presult_is_noop r)); [exact H1|].
+  destruct (k_code k =? XK_Eisu_toggle)%Z.
+  { destruct (negb (k_release k)); [|exact H1]. cbn [fst]. eapply appends_trans; [exact H1|].
+    eapply appends_trans; [|apply ac_toggle_appends]. apply with_ac_appends. }
+  cbv zeta.
+  match goal with |- appends s (fst (if ?b then _ else _)) => destruct b end.
+  - destruct (k_release k).
+    + destruct (ac_shift (st_ac s1) || ac_ctrl (st_ac s1)); [|exact H1]. cbn [fst]. eapply appends_trans; [exact H1|].
+      unfold ac_unpress. eapply appends_trans; [|apply with_ac_appends].
+      match goal with |- appends s1 (if ?b then _ else _) => destruct b end; [apply ac_toggle_appends | apply appends_refl].
+    + destruct (negb (ac_shift (st_ac s1) || ac_ctrl (st_ac s1))); cbn [fst]; [|exact H1].
+      eapply appends_trans; [exact H1 | apply with_ac_appends].
+  - assert (H2 : appends s (ac_unpress s1)) by (eapply appends_trans; [exact H1 | apply with_ac_appends]).
+    match goal with |- appends s (fst (if ?b then _ else _)) => destruct b end; [exact H2|].
+    destruct (get_option (st_ctx (ac_unpress s1)) opt_ascii_mode); [|exact H2].
+    destruct (negb (is_composing (st_ctx (ac_unpress s1)))); [exact H2|].
+    match goal with |- appends s (fst (if ?b then _ else _)) => destruct b end; [|exact H2].
+    cbn [fst]. eapply appends_trans; [exact H2 | apply on_ctx_appends].
+Qed.
+
 Lemma reinterpret_appends s k : appends s (fst (reinterpret_paging_key cfg translate s k)).
 Proof.
   unfold reinterpret_paging_key. destruct (k_release k); [apply appends_refl|]. cbv zeta.
@@ -515,7 +578,7 @@ Lemma proc_of_appends kb i s k : (forall x, appends x (fst (kb x k))) -> appends
 Proof.
   intros Hkb. destruct i; cbn [proc_of];
     [apply speller_appends | apply punctuator_appends | apply selector_appends | apply navigator_appends | apply editor_appends
-     | apply Hkb].
+     | apply Hkb | apply ascii_composer_appends].
 Qed.
 
 Lemma run_processors_appends ps k :
@@ -585,6 +648,7 @@ Proof.
     destruct (on_current_page cfg s i _). exact H.
   - pose proof (change_page_appends s backward) as H. destruct (change_page cfg translate s backward). exact H.
   - apply commit_appends.
+  - apply appends_eq. reflexivity.
 Qed.
 
 Lemma step_commit_eq s o : st_commit (fst (step cfg translate s o)) =
@@ -638,7 +702,7 @@ Proof.
     destruct (cx_err (st_ctx (match ve with Some e => st_with_ctx s (ctx_fail (st_ctx s) e) | None => s end))) eqn:Ee;
       [discriminate|]. intros _. cbn [fst snd read_of].
     split; [reflexivity|]. split; [destruct ve; cbn; exact Ec | eexists; reflexivity].
-  - set (s1 := mkSt (st_ctx s) (st_nav_input s) (st_spans s) [] (st_odd s) (st_kb_last s)).
+  - set (s1 := mkSt (st_ctx s) (st_nav_input s) (st_spans s) [] (st_odd s) (st_kb_last s) (st_ac s) (st_clock s)).
     destruct (view_of cfg s1) as [v ve].
     destruct (cx_err (st_ctx (match ve with Some e => st_with_ctx s1 (ctx_fail (st_ctx s1) e) | None => s1 end))) eqn:Ee;
       [discriminate|]. intros _. cbn [fst snd read_of].
